@@ -63,6 +63,7 @@ META = {
 }
 
 C_TOL = 1.0e3      # forward-error constant (measured ratios on the clean tree stay below ~15)
+C_GAIN = 1.0e4     # same for the gains stream (sensitivity is sampled along three random directions, not worst-case)
 STAT: dict = {}    # largest observed error / allowed-error ratio per check (goes into the evidence notes)
 
 
@@ -110,6 +111,43 @@ def run_lines(ctx: Ctx, lines):
 HORIZONS = [1, 2, 3, 4, 5, 6, 8, 10, 13, 17, 20]
 
 
+NOMS = ["none", "zeros", ["rand", 1e-3, 0], ["rand", 1.0, 1], ["rand", 1.0, 2], ["rand", 30.0, 3], ["rand", 1e4, 4], "prev"]
+XVIEWS = ["contig", "contig", "noncontig", "slice"]
+UVIEWS = ["contig", "contig", "noncontig", "slice", "transposed"]
+
+
+def gen_history(rng, case, nsolve=None):
+    """a history on one system object: solves with EVERY per-call argument varied (x_init, u_traj, dt, memory layout of
+    the arguments) interleaved with clock writes, forward calls, in-place updates of tensors the caller holds
+    (system matrices, x_init), other problems / batch sizes / LQR objects on the same system"""
+    T = case["T"]
+    lti = case["sys"] in ("lti", "lti_shared")
+    ops = []
+    nsolve = rng.choice([1, 2, 2, 3, 3, 4]) if nsolve is None else nsolve
+    for i in range(nsolve):
+        if i > 0 or rng.random() < 0.5:
+            r = rng.random()
+            if r < 0.25:
+                ops.append(["clock", rng.choice([1, 2, T - 1, T, T + 1, T + case["extra"], 2 * T + 7, 1000]), rng.choice(["set", "reset", "tensor"])])
+            elif r < 0.4:
+                ops.append(["fwd", rng.randint(1, 3)])
+            elif r < 0.55:
+                ops.append(["other", rng.randint(1, T), rng.randrange(1 << 20), rng.choice([1, 2, 3])])
+            elif r < 0.63:
+                ops.append(["newlqr"])
+            elif r < 0.73:
+                ops.append(["otherx0", rng.randrange(1 << 20), rng.choice([1.0, 1.0, 1e3])])
+            elif r < 0.83 and i > 0:
+                ops.append(["mutate", rng.choice([0.5, -1.0, 1.25]), rng.choice([2.0, -0.5, 1.0]), rng.choice([0.0, 0.75])])
+            elif r < 0.9 and i > 0:
+                ops.append(["mutx0", rng.choice([-1.0, 0.5, 2.0]), rng.choice([0.0, 0.25])])
+        opts = {"xview": rng.choice(XVIEWS), "uview": rng.choice(UVIEWS), "prev_obj": rng.random() < 0.5}
+        if lti and rng.random() < 0.4:
+            opts["dt"] = rng.choice([1, 2, 0.5, 0.01])
+        ops.append(["solve", rng.choice(NOMS) if i > 0 else rng.choice(NOMS[:-1]), opts])
+    return ops
+
+
 def gen_lqr_case(rng, big=True, small=None, mpc=False):
     if small is not None:
         Bn, T, ns, nc = small
@@ -121,12 +159,14 @@ def gen_lqr_case(rng, big=True, small=None, mpc=False):
         Bn = 1
     rhos = [r for r in U.RHOS if max(r, 1.0) ** T <= 1e4]
     dtype = "float64" if rng.random() < 0.9 else "float32"
+    # magnitude ladders go well beyond "ordinary" sizes: the property says any p, c1, x_init, u_traj
     case = dict(kind="lqr", B=Bn, T=T, ns=ns, nc=nc, sys=rng.choice(["lti", "lti", "lti_shared", "ltv", "ltv", "ltvc"]),
-                dtype=dtype, condQ=rng.choice([1, 10, 1e3, 1e6]), qscale=rng.choice([1e-2, 1, 1, 1e2]), rho=rng.choice(rhos),
+                dtype=dtype, condQ=rng.choice([1, 10, 1e3, 1e6]), qscale=rng.choice([1e-4, 1e-2, 1, 1, 1e2, 1e4]), rho=rng.choice(rhos),
                 astyle=rng.choice(["rand", "rand", "diag", "rot", "jordan", "zero"]), bscale=rng.choice([1e-2, 1, 1, 10]),
                 bstyle=rng.choice(["full", "full", "zerocol", "zero", "rank1"]), c1=rng.choice(["none", "rand", "rand"]),
-                cscale=rng.choice([1e-3, 1, 10]), pscale=rng.choice([0, 1e-3, 1, 1, 100]),
-                x0scale=rng.choice([0, 1e-3, 1, 1, 10]), qshape=rng.choice(["full", "full", "q3", "p2", "q3p2"]),
+                cscale=rng.choice([1e-3, 1, 10, 1e3]), pscale=rng.choice([0, 1e-3, 1, 1, 100, 1e5]),
+                x0scale=rng.choice([0, 1e-3, 1, 1, 10, 1e4]), qshape=rng.choice(["full", "full", "q3", "p2", "q3p2"]),
+                qexpand=rng.random() < 0.5, mixed=(Bn > 1 and rng.random() < 0.35),
                 extra=rng.randint(0, 4), c2=rng.random() < 0.3, dt=1, data_seed=rng.randrange(1 << 30))
     if case["sys"] == "ltvc":
         case["c1"] = "rand"
@@ -136,26 +176,54 @@ def gen_lqr_case(rng, big=True, small=None, mpc=False):
         case["condQ"] = min(case["condQ"], 10)
         case["rho"] = min(case["rho"], 1.05)
         case["qscale"], case["bscale"] = 1, min(case["bscale"], 1)
-    # history on one system object
-    ops = []
-    noms = ["none", "zeros", ["rand", 1e-3, 0], ["rand", 1.0, 1], ["rand", 1.0, 2], ["rand", 30.0, 3], "prev"]
-    nsolve = rng.choice([1, 2, 2, 3, 3, 4])
-    for i in range(nsolve):
-        if i > 0 or rng.random() < 0.5:
-            r = rng.random()
-            if r < 0.35:
-                ops.append(["clock", rng.choice([1, 2, T - 1, T, T + 1, T + case["extra"], 2 * T + 7, 1000]), rng.choice(["set", "reset"])])
-            elif r < 0.55:
-                ops.append(["fwd", rng.randint(1, 3)])
-            elif r < 0.7:
-                ops.append(["other", rng.randint(1, T), rng.randrange(1 << 20)])
-            elif r < 0.8:
-                ops.append(["newlqr"])
-            elif r < 0.9:
-                ops.append(["otherx0", rng.randrange(1 << 20)])
-        ops.append(["solve", rng.choice(noms) if i > 0 else rng.choice(noms[:-1])])
-    case["ops"] = ops
+        case["pscale"], case["x0scale"], case["cscale"] = min(case["pscale"], 100), min(case["x0scale"], 10), min(case["cscale"], 10)
+    case["ops"] = gen_history(rng, case)
     return case
+
+
+def corpus():
+    """deterministic corner corpus (independent of VERIF_SEED), run before the seeded cases: every system kind with a
+    history that contains every kind of operation, the shape corners, mixed-regime batches, extreme magnitudes"""
+    import random
+    rng = random.Random(20260925)
+    out = []
+    full_ops = lambda c: (
+        [["solve", "none", {"xview": "slice", "uview": "contig"}],
+         ["clock", 1000, "set"], ["solve", ["rand", 30.0, 3], {"xview": "noncontig", "uview": "transposed"}],
+         ["fwd", 2], ["solve", "prev", {"prev_obj": True}],
+         ["other", max(1, c["T"] - 1), 4242, 3], ["solve", ["rand", 1e4, 4], {"uview": "slice"}],
+         ["otherx0", 77, 1e3], ["solve", "zeros", {"uview": "noncontig"}],
+         ["clock", c["T"] + 1, "tensor"], ["newlqr"], ["solve", ["rand", 1.0, 1], {}],
+         ["mutate", -1.0, 2.0, 0.75], ["solve", "none", {}], ["solve", "prev", {"prev_obj": True, "xview": "slice"}],
+         ["mutx0", -1.0, 0.25], ["solve", ["rand", 1.0, 2], {}], ["solve", "none", {}]])
+    for sysk in ("lti", "lti_shared", "ltv", "ltvc"):
+        for (Bn, T, ns, nc) in ((3, 1, 1, 1), (2, 2, 1, 2), (3, 3, 2, 1), (1, 5, 3, 2), (2, 20, 6, 6), (3, 8, 1, 6)):
+            c = gen_lqr_case(rng, small=(Bn, T, ns, nc))
+            c.update(sys=sysk, dtype="float64", c1="rand", extra=0 if T % 2 else 2, dt=1, mixed=Bn > 1, qexpand=True,
+                     rho=min(c["rho"], 1.05) if T > 8 else c["rho"])
+            c["ops"] = full_ops(c)
+            out.append(c)
+    # extreme-but-valid magnitudes and conditioning, one block at a time
+    for k, v in (("qscale", 1e-6), ("qscale", 1e6), ("pscale", 1e8), ("x0scale", 1e6), ("cscale", 1e5), ("bscale", 1e-4),
+                 ("bscale", 1e3), ("condQ", 1e6), ("rho", 3.0), ("rho", 0.0)):
+        c = gen_lqr_case(rng, small=(2, 4, 3, 2))
+        c.update(sys="ltv", dtype="float64", c1="rand", mixed=False, condQ=10, qscale=1, pscale=1, x0scale=1, cscale=1, bscale=1,
+                 rho=0.9, astyle="rand", bstyle="full", dt=1)
+        c[k] = v
+        c["ops"] = [["solve", "none", {}], ["clock", 9, "reset"], ["solve", ["rand", 1e4, 4], {"uview": "transposed"}],
+                    ["solve", "prev", {"prev_obj": True}]]
+        out.append(c)
+    # float32 with views and a mixed batch
+    c = gen_lqr_case(rng, small=(3, 6, 2, 2))
+    c.update(sys="lti", dtype="float32", condQ=10, qscale=1, bscale=1, rho=0.9, pscale=1, x0scale=1, cscale=1, mixed=True, dt=1)
+    c["ops"] = full_ops(c)
+    out.append(c)
+    # per-call dt on LTI systems
+    c = gen_lqr_case(rng, small=(2, 5, 2, 2))
+    c.update(sys="lti", dtype="float64", dt=1, mixed=False)
+    c["ops"] = [["solve", "none", {"dt": 2}], ["solve", ["rand", 1.0, 1], {"dt": 0.01}], ["solve", "prev", {"dt": 1, "prev_obj": True}]]
+    out.append(c)
+    return out
 
 
 def gen_mpc_linear_case(rng, big=True):
@@ -169,6 +237,8 @@ def gen_mpc_linear_case(rng, big=True):
     case["tol"] = rng.choice([1e-5, 1e-5, 1e3, -1e9])
     case["uinit"] = rng.choice(["none", ["rand", 1.0, 0], ["rand", 20.0, 1]])
     case["calls"] = rng.choice([1, 2, 3])
+    case["shared_stepper"] = rng.random() < 0.25 and case["steps"] >= 2
+    case["mixed"] = False
     case["ops"] = []
     return case
 
@@ -186,7 +256,28 @@ def gen_mpc_nls_case(rng, big=True):
                 patience=rng.choice([1, 2, 3, 5, 5]), decreasing=rng.choice([1e-3, 1e-3, 0.3]), tol=rng.choice([1e-5, -1e9, -1e9, -1e9]),
                 uinit=rng.choice(["none", ["rand", 0.3, 0], ["rand", 1.0, 1]]), calls=rng.choice([1, 1, 2, 3]),
                 data_seed=rng.randrange(1 << 30))
+    case["shared_stepper"] = rng.random() < 0.25 and case["steps"] >= 2
     return case
+
+
+def mpc_corpus():
+    """deterministic MPC cases: three calls on one object (x_init, u_init and its layout changing every call), shared
+    stepper objects, degenerate budgets, the time-dependent nonlinear system with T >= 2"""
+    import random
+    rng = random.Random(20260926)
+    out = []
+    for steps, pat, shared, sysk in ((1, 1, False, "lti"), (2, 2, True, "ltv"), (5, 1, False, "ltvc"), (10, 5, True, "lti_shared"), (12, 3, False, "ltv")):
+        c = gen_mpc_linear_case(rng)
+        c.update(sys=sysk, steps=steps, patience=pat, shared_stepper=shared, calls=3, tol=-1e9, decreasing=1e-3, uinit=["rand", 20.0, 1],
+                 c1="rand")
+        out.append(c)
+    for steps, pat, shared, amp, phi, T in ((1, 1, False, 0.3, 1.0, 3), (3, 2, True, 1.0, 2.0, 4), (8, 5, False, 0.2, 0.5, 5), (12, 3, True, 0.05, 1.0, 2),
+                                            (4, 5, False, 1.5, 1.0, 6), (6, 2, False, 0.3, 2.0, 1)):
+        c = gen_mpc_nls_case(rng)
+        c.update(steps=steps, patience=pat, shared_stepper=shared, amp=amp, phi=phi, T=T, calls=3, tol=-1e9, decreasing=1e-3,
+                 uinit=["rand", 1.0, 1], x0scale=1, pscale=1)
+        out.append(c)
+    return out
 
 
 def sig_of(case):
@@ -268,24 +359,24 @@ def check_solution(ctx: Ctx, case, prob, refs, x, u, cost, tag, ubar=None, T=Non
     return ok
 
 
-def perturb_test(ctx: Ctx, case, refs, u, tag):
+def perturb_test(ctx: Ctx, case, refs, u, tag, ubar=None):
     """no perturbation of the inputs lowers the cost (evaluated through the exact roll-out)"""
     eps = eps_of(case)
     rs = np.random.RandomState((case["data_seed"] + 99) % (2 ** 32))
     un = u.detach().double().numpy()
     for b in range(case["B"]):
         r = refs[b]
+        tol_u, _, _ = r.tols(None if ubar is None else ubar[b], eps)
+        slack = (C_TOL * eps) ** 2 * float(tol_u.reshape(-1) @ np.abs(r.H) @ tol_u.reshape(-1)) + C_TOL * r.floor(None if ubar is None else ubar[b], eps)[1]
         J0, Ja = r.cost(r.rollout(un[b]), un[b])
         for scale in (1e-3, 1.0):
             d = rs.standard_normal(un[b].shape) * scale * (1 + np.abs(un[b]).max())
             J1, Ja1 = r.cost(r.rollout(un[b] + d), un[b] + d)
-            if J1 < J0 - C_TOL * eps * max(Ja, Ja1):
+            if J1 < J0 - C_TOL * eps * max(Ja, Ja1) - slack:
                 ctx.fail(case, f"optimal: {tag}: a perturbation of size {scale} lowers the cost from {J0!r} to {J1!r} (item {b})")
                 return False
     return True
 
-
-# ----------------------------------------------------------------------------- LQR stream (with histories)
 
 class Snap:
     """bitwise snapshot of tensors that a solve must not modify"""
@@ -448,7 +539,7 @@ def run_lqr_case(ctx: Ctx, case, lines, metas):
                 good = check_solution(ctx, case, prob, refs, x, u, cost, tag, ubar=un)
                 ok &= good
                 if good and nsolve == 1:
-                    ok &= perturb_test(ctx, case, refs, u, tag)
+                    ok &= perturb_test(ctx, case, refs, u, tag, ubar=un)
                 tl = [refs[b].tols(None if un is None else un[b], eps) for b in range(Bn)]
                 if first is None:
                     first = (x.detach().double().numpy(), u.detach().double().numpy(), cost.detach().double().numpy(), tl)
@@ -528,8 +619,8 @@ def compare_lqr_model(ctx: Ctx, reps, metas):
                                       f"x {np.abs(xi - xm).max():.3e} (ratio {ex.max():.2f}), cost {abs(ci - cm):.3e} (ratio {ec:.2f})")
         # gains, per time step: allowed = C*eps*(sensitivity of (K_t,k_t) to relative data perturbations + their size)
         sK, sk = U.gains_tolerance(r, ub, case["data_seed"] + b)
-        eK = np.abs(Ki - Km).reshape(T, -1).max(axis=1) / (C_TOL * eps * sK + 1e-300)
-        ek = np.abs(ki - km).reshape(T, -1).max(axis=1) / (C_TOL * eps * sk + C_TOL * eps * eps * (np.abs(um).max() + np.abs(r.x).max()) + 1e-300)
+        eK = np.abs(Ki - Km).reshape(T, -1).max(axis=1) / (C_GAIN * eps * sK + 1e-300)
+        ek = np.abs(ki - km).reshape(T, -1).max(axis=1) / (C_GAIN * eps * sk + C_GAIN * eps * eps * (np.abs(um).max() + np.abs(r.x).max()) + 1e-300)
         stat("model.K", eK.max()); stat("model.k", ek.max())
         if eK.max() > 1 or ek.max() > 1:
             t = int(np.argmax(np.maximum(eK, ek)))
@@ -555,7 +646,7 @@ class Recorder:
         self.h.remove()
 
 
-def check_mpc_loop(ctx: Ctx, case, rec: Recorder, tag):
+def check_mpc_loop(ctx: Ctx, case, rec: Recorder, tag, u_given=False, u_init=None):
     """structure of the iterative loop, read off the recorded inner solves (real code only)"""
     calls = rec.calls
     if len(calls) < 2:
@@ -563,6 +654,11 @@ def check_mpc_loop(ctx: Ctx, case, rec: Recorder, tag):
         return False
     it = calls[:-1]
     ok = True
+    if u_given:
+        f0 = it[0][0]
+        if (u_init is None) != (f0 is None) or (f0 is not None and not torch.equal(f0, u_init)):
+            ctx.fail(case, f"mpc-loop: {tag}: the first inner solve does not start from the u_init given to THIS call")
+            ok = False
     for i in range(1, len(it)):
         if it[i][0] is None or not torch.equal(it[i][0], it[i - 1][1]):
             ctx.fail(case, f"mpc-loop: {tag}: iteration {i} does not start from the inputs of iteration {i - 1}")
@@ -579,12 +675,55 @@ def check_mpc_loop(ctx: Ctx, case, rec: Recorder, tag):
     return ok
 
 
+def mpc_attrs(mpc):
+    st = mpc.stepper
+    return (st.max_steps, st.patience, st.decreasing, st.tol, lqr_attrs(mpc.lqr))
+
+
+def mpc_call(ctx: Ctx, case, mpc, system, x0t, uin, uview, tag, steps_eff, kept: Kept):
+    """one `MPC.__call__` on the real code with the call-level oracles (purity incl. the buffers behind views, public
+    attributes, loop structure, number of iterations against the documented stepper rules, earlier results intact)"""
+    ut, ubase = (None, None) if uin is None else U.as_view(torch.tensor(uin), uview)
+    xv, xbase = U.as_view(x0t, "slice" if uview == "noncontig" else "contig")
+    rec = Recorder(mpc.lqr)
+    snap = Snap([("x_init", xv), ("x_init buffer", xbase), ("u_init", ut), ("u_init buffer", ubase), ("Q", mpc.lqr.Q), ("p", mpc.lqr.p)]
+                + sys_tensors(system))
+    att = mpc_attrs(mpc)
+    try:
+        x, u, cost = mpc(1, xv, ut) if ut is not None else mpc(1, xv)
+    finally:
+        rec.close()
+    ok = True
+    if snap.changed():
+        ctx.fail(case, f"purity: {tag}: MPC modified {snap.changed()}")
+        ok = False
+    if mpc_attrs(mpc) != att:
+        ctx.fail(case, f"attributes: {tag}: the call changed public attributes of the MPC object {att} -> {mpc_attrs(mpc)}")
+        ok = False
+    ok &= check_mpc_loop(ctx, case, rec, tag, u_given=True, u_init=None if ut is None else ut.detach().clone())
+    costs = [float(c[2].reshape(-1)[0]) for c in rec.calls[:-1]]
+    if costs:
+        stop_at, pc_exp, frag = U.expected_iterations(costs, steps_eff, case["patience"], case["decreasing"], case["tol"])
+        if not frag and stop_at != len(costs) - 1:
+            ctx.fail(case, f"mpc-loop: {tag}: the loop ran {len(costs)} iterations; by the stepper's documented rules (budget {steps_eff} - 1, "
+                           f"patience {case['patience']}, decreasing {case['decreasing']}, tol {case['tol']}) it has to stop after "
+                           f"{'more than that' if stop_at is None else stop_at + 1}; costs {costs}")
+            ok = False
+    mod = kept.modified()
+    if mod:
+        ctx.fail(case, f"aliasing: {tag}: tensors returned by {mod} were modified by this call")
+        ok = False
+    if all(isinstance(t, torch.Tensor) for t in (x, u, cost)):
+        kept.add(tag, x, u, cost)
+    return ok, x, u, cost, rec, costs
+
+
 def run_mpc_linear(ctx: Ctx, case, lines, metas):
     P = U.pp()
     prob = U.build_problem(case)
     T, ns, nc = case["T"], case["ns"], case["nc"]
-    refs = [U.make_ref(prob, 0, T)]
     system = U.make_system(case, prob)
+    lqr_side = U.make_lqr(case, prob, system)      # an LQR object sharing the system with the MPC object
     Q, p = torch.tensor(prob["Q"]), torch.tensor(prob["p"])
     if case["qshape"] in ("q3", "q3p2"):
         Q = Q[:, 0]
@@ -592,28 +731,36 @@ def run_mpc_linear(ctx: Ctx, case, lines, metas):
         p = p[:, 0]
     stepper = P.utils.ReduceToBason(steps=case["steps"], patience=case["patience"], decreasing=case["decreasing"], tol=case["tol"])
     ok = True
+    kept = Kept()
     try:
         mpc = P.module.MPC(system, Q, p, T, stepper=stepper)
-        x0 = torch.tensor(prob["x0"])
+        steps_eff = case["steps"]
+        if case.get("shared_stepper"):             # a second MPC object built around the same stepper object
+            mpc = P.module.MPC(system, Q, p, T, stepper=stepper)
+            steps_eff -= 1
         for call in range(case["calls"]):
-            uin = U.nominal(case, prob, case["uinit"] if call == 0 else ["rand", 1.0, 10 + call])
-            ut = None if uin is None else torch.tensor(uin)
+            # every per-call argument changes between calls: x_init, u_init (value, presence, memory layout)
+            f = [1.0, -0.5, 3.0][call % 3]
+            pcall = dict(prob, x0=prob["x0"] * f + (0.0 if call == 0 else 0.125))
+            refs = [U.make_ref(pcall, 0, T)]
+            x0t = torch.tensor(pcall["x0"])
+            uin = U.nominal(case, prob, case["uinit"] if call == 0 else [None, ["rand", 1.0, 10 + call], ["rand", 50.0, 20 + call]][call % 3])
             pc0 = int(stepper.patience_count)
-            rec = Recorder(mpc.lqr)
-            snap = Snap([("x_init", x0), ("u_init", ut)] + sys_tensors(system))
-            x, u, cost = mpc(1, x0, ut) if ut is not None else mpc(1, x0)
-            rec.close()
             tag = f"MPC call #{call + 1} on a linear system"
-            if snap.changed():
-                ctx.fail(case, f"purity: {tag}: MPC modified {snap.changed()}")
-                ok = False
-            ok &= check_solution(ctx, case, prob, refs, x, u, cost, tag, ubar=uin)
-            ok &= check_mpc_loop(ctx, case, rec, tag)
-            nums, L = U.linear_nums(case, prob, 0, uin)
-            lines.append(U.mpc_line(case, nums, L, uin is not None, case["steps"], case["patience"], pc0, case["decreasing"], case["tol"]))
+            good, x, u, cost, rec, costs = mpc_call(ctx, case, mpc, system, x0t, uin, ["contig", "noncontig", "transposed"][call % 3],
+                                                    tag, steps_eff, kept)
+            ok &= good
+            ok &= check_solution(ctx, case, pcall, refs, x, u, cost, tag, ubar=uin)
+            nums, L = U.linear_nums(case, pcall, 0, uin)
+            lines.append(U.mpc_line(case, nums, L, uin is not None, steps_eff, case["patience"], pc0, case["decreasing"], case["tol"]))
             metas.append((case, call, len(rec.calls) - 1, int(stepper.patience_count), x[0].double().numpy(), u[0].double().numpy(),
                           float(cost[0]), (refs[0], refs[0].tols(None if uin is None else uin[0])), None))
             ctx.count("mpc.linear.call")
+            if call + 1 < case["calls"]:
+                # an LQR solve on the same system object between two MPC calls, clock left dirty
+                xs, us, cs = lqr_side(x0t, 1)
+                ok &= check_solution(ctx, case, pcall, refs, xs, us, cs, f"LQR solve between MPC calls #{call + 1} and #{call + 2}")
+                system.systime = 2 * T + 3
     except common.InfraError:
         raise
     except Exception as e:
@@ -656,16 +803,29 @@ def nls_feasible(ctx: Ctx, case, sp, x, u, cost, tag):
 
 
 def nls_sensitivity(case, sp, fn):
-    """how much the implementation's own result moves under a 1e-9 relative change of x_init (sets the tolerance
-    of the nonlinear streams: an iterated nonlinear map amplifies rounding by its own conditioning)"""
+    """how much the implementation's own result moves under 1e-9 relative changes of the data (x_init; p) — per time
+    step (max over the components of the step), no global factor. Sets the tolerance of the nonlinear streams: an
+    iterated nonlinear map amplifies rounding by its own conditioning."""
     d = 1e-9
-    sp2 = dict(sp, x0=sp["x0"] * (1 + d) + d * 1e-3)
     try:
         xa, ua = fn(sp)
-        xb, ub = fn(sp2)
+        su, sx = np.zeros(ua.shape[0]), np.zeros(xa.shape[0])
+        for sp2 in (dict(sp, x0=sp["x0"] * (1 + d) + d * 1e-3), dict(sp, p=sp["p"] * (1 + d) + d * 1e-3),
+                    dict(sp, c=sp["c"] * (1 - d) + d * 1e-3)):
+            xb, ub = fn(sp2)
+            su = np.maximum(su, np.abs(ua - ub).max(axis=1) / d)
+            sx = np.maximum(sx, np.abs(xa - xb).max(axis=1) / d)
     except Exception:
         return None
-    return float(np.abs(ua - ub).max() / d), float(np.abs(xa - xb).max() / d)
+    return su, sx
+
+
+def nls_tol(sens, um, xm, eps):
+    """per-time-step allowed deviation between implementation and model on the nonlinear streams"""
+    su, sx = sens
+    tu = 1e4 * eps * (su + np.abs(um).max(axis=1)) + 1e4 * eps * eps * (np.abs(um).max() + np.abs(xm).max())
+    tx = 1e4 * eps * (sx + np.abs(xm).max(axis=1)) + 1e4 * eps * eps * (np.abs(um).max() + np.abs(xm).max())
+    return tu[:, None], tx[:, None]
 
 
 def run_mpc_nls(ctx: Ctx, case, lines, metas):
@@ -673,10 +833,12 @@ def run_mpc_nls(ctx: Ctx, case, lines, metas):
     sp = U.build_sin_problem(case)
     T, ns, nc = case["T"], case["ns"], case["nc"]
     ok = True
+    kept = Kept()
     try:
         system = U.make_sin_system(sp)
-        Q, p = torch.tensor(sp["Q"]).unsqueeze(0), torch.tensor(sp["p"]).unsqueeze(0)
-        x0 = torch.tensor(sp["x0"]).unsqueeze(0)
+        mk = lambda a: torch.tensor(a).unsqueeze(0)
+        Q, p = mk(sp["Q"]), mk(sp["p"])
+        x0 = mk(sp["x0"])
         fake = dict(case, B=1)
         # (a) one LQR solve around a nominal trajectory (clock dirty at entry)
         rs = np.random.RandomState((case["data_seed"] + 5) % (2 ** 32))
@@ -685,55 +847,81 @@ def run_mpc_nls(ctx: Ctx, case, lines, metas):
         system.reset(3)
         x, u, cost = lq(x0, 1, torch.tensor(ub))
         ok &= nls_feasible(ctx, case, sp, x, u, cost, "LQR solve on the nonlinear system")
+        kept.add("LQR solve on the nonlinear system", x, u, cost)
         lqg = P.module.LQR(system, Q, p, T)
         K, k = lqg.lqr_backward(x0, 1, torch.tensor(ub))
 
         def one(spx):
             s2 = U.make_sin_system(spx)
-            xx, uu, _ = P.module.LQR(s2, Q, p, T)(torch.tensor(spx["x0"]).unsqueeze(0), 1, torch.tensor(ub))
+            xx, uu, _ = P.module.LQR(s2, mk(spx["Q"]), mk(spx["p"]), T)(mk(spx["x0"]), 1, torch.tensor(ub))
             return xx[0].double().numpy(), uu[0].double().numpy()
         sens = nls_sensitivity(case, sp, one)
-        lines.append(U.nls_line(case, sp, ub[0]))
-        metas.append((case, "nls", None, None, x[0].double().numpy(), u[0].double().numpy(), float(cost[0]), sens,
-                      (K[0].double().numpy(), k[0].double().numpy())))
+        if tuple(K.shape) != (1, T, nc, ns) or tuple(k.shape) != (1, T, nc):
+            ctx.fail(case, f"shape: lqr_backward on the nonlinear system returned K{tuple(K.shape)} k{tuple(k.shape)}")
+            ok = False
+        else:
+            lines.append(U.nls_line(case, sp, ub[0]))
+            metas.append((case, "nls", None, None, x[0].double().numpy(), u[0].double().numpy(), float(cost[0]), sens,
+                          (K[0].double().numpy(), k[0].double().numpy())))
         ctx.count("nls.solve")
-        # (b) MPC, possibly several calls on one object
+        # (b) MPC, several calls on one object, every per-call argument varied (x_init, u_init, its layout), an LQR solve
+        # on the same system in between
         stepper = P.utils.ReduceToBason(steps=case["steps"], patience=case["patience"], decreasing=case["decreasing"], tol=case["tol"])
         mpc = P.module.MPC(system, Q, p, T, stepper=stepper)
+        steps_eff = case["steps"]
+        if case.get("shared_stepper"):
+            mpc = P.module.MPC(system, Q, p, T, stepper=stepper)
+            steps_eff -= 1
         for call in range(case["calls"]):
-            spec = case["uinit"] if call == 0 else ["rand", 0.5, 10 + call]
+            spc = dict(sp, x0=sp["x0"] * [1.0, -0.5, 1.5][call % 3] + (0.0 if call == 0 else 0.125))
+            spec = case["uinit"] if call == 0 else [None, ["rand", 0.5, 10 + call], ["rand", 1.0, 20 + call]][call % 3]
             uin = U.nominal(fake, None, spec)
-            ut = None if uin is None else torch.tensor(uin)
             pc0 = int(stepper.patience_count)
             system.reset(call * 5)
-            rec = Recorder(mpc.lqr)
-            x, u, cost = mpc(1, x0, ut) if ut is not None else mpc(1, x0)
-            rec.close()
             tag = f"MPC call #{call + 1} on the nonlinear system"
-            ok &= nls_feasible(ctx, case, sp, x, u, cost, tag)
-            ok &= check_mpc_loop(ctx, case, rec, tag)
+            good, x, u, cost, rec, costs = mpc_call(ctx, case, mpc, system, mk(spc["x0"]), uin, ["contig", "noncontig", "transposed"][call % 3],
+                                                    tag, steps_eff, kept)
+            ok &= good
+            ok &= nls_feasible(ctx, case, spc, x, u, cost, tag)
 
-            def one_mpc(spx, ut=ut, pc0=pc0):
+            def one_mpc(spx, uin=uin):
                 s2 = U.make_sin_system(spx)
-                st2 = P.utils.ReduceToBason(steps=case["steps"], patience=case["patience"], decreasing=case["decreasing"], tol=case["tol"])
-                m2 = P.module.MPC(s2, Q, p, T, stepper=st2)
-                st2.patience_count = pc0
-                xx, uu, _ = m2(1, torch.tensor(spx["x0"]).unsqueeze(0), ut) if ut is not None else m2(1, torch.tensor(spx["x0"]).unsqueeze(0))
+                st2 = P.utils.ReduceToBason(steps=steps_eff, patience=case["patience"], decreasing=case["decreasing"], tol=case["tol"])
+                m2 = P.module.MPC(s2, mk(spx["Q"]), mk(spx["p"]), T, stepper=st2)
+                a = (1, mk(spx["x0"])) if uin is None else (1, mk(spx["x0"]), torch.tensor(uin))
+                xx, uu, _ = m2(*a)
                 return xx[0].double().numpy(), uu[0].double().numpy()
-            sens = nls_sensitivity(case, sp, one_mpc)
-            lines.append(U.mpc_line(case, U.sin_nums(case, sp, None if uin is None else uin[0]), 0, uin is not None,
-                                    case["steps"], case["patience"], pc0, case["decreasing"], case["tol"]))
-            costs = [float(c[2].reshape(-1)[0]) for c in rec.calls[:-1]]
+            sens = nls_sensitivity(case, spc, one_mpc)
+            lines.append(U.mpc_line(case, U.sin_nums(case, spc, None if uin is None else uin[0]), 0, uin is not None,
+                                    steps_eff, case["patience"], pc0, case["decreasing"], case["tol"]))
             metas.append((case, call, len(rec.calls) - 1, int(stepper.patience_count), x[0].double().numpy(), u[0].double().numpy(),
                           float(cost[0]), sens, costs))
             ctx.count("mpc.nls.call")
             ctx.count(f"mpc.nls.iterations.{len(rec.calls) - 1}")
+            if call + 1 < case["calls"]:
+                xs, us, cs = lq(mk(spc["x0"]), 1, torch.tensor(ub))
+                ok &= nls_feasible(ctx, case, spc, xs, us, cs, f"LQR solve between MPC calls #{call + 1} and #{call + 2}")
     except common.InfraError:
         raise
     except Exception as e:
         ctx.fail(case, f"raises: LQR/MPC on the nonlinear system raised {type(e).__name__}: {str(e)[:160]}")
         return False
     return ok
+
+
+class LinView:
+    """the linearisation of a SinSys problem around the rolled-out nominal, in the shape `gains_tolerance` expects"""
+
+    def __init__(self, sp, ub):
+        T = sp["Q"].shape[0]
+        xb = [sp["x0"]]
+        for t in range(T - 1):
+            xb.append(U.sin_f(sp, xb[t], ub[t], t))
+        AB = [U.sin_lin(sp, xb[t], ub[t], t) for t in range(T)]
+        self.A = np.stack([a for a, _ in AB])
+        self.B = np.stack([b for _, b in AB])
+        self.c = np.stack([U.sin_f(sp, xb[t], ub[t], t) - self.A[t] @ xb[t] - self.B[t] @ ub[t] for t in range(T)])
+        self.Q, self.p, self.x0, self.T = sp["Q"], sp["p"], sp["x0"], T
 
 
 def compare_mpc_model(ctx: Ctx, reps, metas):
@@ -745,17 +933,29 @@ def compare_mpc_model(ctx: Ctx, reps, metas):
             sens = extra
             if sens is None:
                 continue
-            tu = 1e4 * eps * (sens[0] + np.abs(um).max() + 1)
-            tx = 1e4 * eps * (sens[1] + np.abs(xm).max() + 1)
-            stat("nls.u", np.abs(ui - um).max() / tu); stat("nls.x", np.abs(xi - xm).max() / tx)
-            if np.abs(ui - um).max() > tu or np.abs(xi - xm).max() > tx or abs(ci - cm) > 1e4 * eps * (abs(cm) + 1) * (1 + sens[0] + sens[1]):
-                ctx.disagree("nls", case, f"LQR on the nonlinear system: u differs by {np.abs(ui - um).max():.3e} (allowed {tu:.3e}), "
-                                          f"x by {np.abs(xi - xm).max():.3e} (allowed {tx:.3e}), cost {ci!r} vs {cm!r}")
+            tu, tx = nls_tol(sens, um, xm, eps)
+            sp = U.build_sin_problem(case)
+            _, Ja = 0.0, sum(0.5 * np.abs(np.concatenate([xm[t], um[t]])) @ np.abs(sp["Q"][t]) @ np.abs(np.concatenate([xm[t], um[t]]))
+                             + np.abs(sp["p"][t]) @ np.abs(np.concatenate([xm[t], um[t]])) for t in range(T))
+            # cost: first-order propagation of the allowed (x,u) deviations through the stage-cost gradient
+            dts = [np.concatenate([np.broadcast_to(tx[t], ns), np.broadcast_to(tu[t], nc)]) for t in range(T)]
+            gsum = sum(float(np.abs(sp["Q"][t] @ np.concatenate([xm[t], um[t]]) + sp["p"][t]) @ dts[t] + 0.5 * dts[t] @ np.abs(sp["Q"][t]) @ dts[t])
+                       for t in range(T))
+            tc = 1e4 * eps * Ja + gsum
+            eu, ex = (np.abs(ui - um) / (tu + 1e-300)).max(), (np.abs(xi - xm) / (tx + 1e-300)).max()
+            stat("nls.u", eu); stat("nls.x", ex); stat("nls.cost", abs(ci - cm) / (tc + 1e-300))
+            if eu > 1 or ex > 1 or abs(ci - cm) > tc + 1e-300:
+                ctx.disagree("nls", case, f"LQR on the nonlinear system: u differs by {np.abs(ui - um).max():.3e} (ratio {eu:.2f}), "
+                                          f"x by {np.abs(xi - xm).max():.3e} (ratio {ex:.2f}), cost {ci!r} vs {cm!r} (allowed {tc:.3e})")
             Ki, ki = aux
-            tk = 1e4 * eps * (1 + sens[0] + sens[1]) * (1 + np.abs(Km).max() + np.abs(km).max()) * case["condQ"]
-            stat("nls.K", np.abs(Ki - Km).max() / tk); stat("nls.k", np.abs(ki - km).max() / tk)
-            if np.abs(Ki - Km).max() > tk or np.abs(ki - km).max() > tk:
-                ctx.disagree("gains", case, f"nonlinear system: K differs by {np.abs(Ki - Km).max():.3e}, k by {np.abs(ki - km).max():.3e} (allowed {tk:.3e})")
+            rs = np.random.RandomState((case["data_seed"] + 5) % (2 ** 32))
+            ub = rs.standard_normal((1, T, nc))[0] * 0.5
+            sK, sk = U.gains_tolerance(LinView(sp, ub), ub, case["data_seed"])
+            eK = (np.abs(Ki - Km).reshape(T, -1).max(axis=1) / (1e4 * eps * sK + 1e-300)).max()
+            ek = (np.abs(ki - km).reshape(T, -1).max(axis=1) / (1e4 * eps * sk + 1e4 * eps * eps * (np.abs(um).max() + np.abs(xm).max()) + 1e-300)).max()
+            stat("nls.K", eK); stat("nls.k", ek)
+            if eK > 1 or ek > 1:
+                ctx.disagree("gains", case, f"nonlinear system: K differs by {np.abs(Ki - Km).max():.3e} (ratio {eK:.2f}), k by {np.abs(ki - km).max():.3e} (ratio {ek:.2f})")
             continue
         nm, pcm, xm, um, cm = U.parse_mpc_reply(rep, ns, nc, T)
         if case["kind"] == "mpc_lin":
@@ -765,7 +965,7 @@ def compare_mpc_model(ctx: Ctx, reps, metas):
             _, Ja = r.cost(xm, um)
             eu = np.abs(ui - um) / (C_TOL * eps * tol_u + 1e-300)
             ex = np.abs(xi - xm) / (C_TOL * eps * tol_x + 1e-300)
-            if eu.max() > 1 or ex.max() > 1 or abs(ci - cm) > C_TOL * eps * (Ja + float((_sg * tol_u).sum())) + 1e-300:
+            if eu.max() > 1 or ex.max() > 1 or abs(ci - cm) > C_TOL * eps * (Ja + float((_sg * tol_u).sum())) + C_TOL * r.floor(None, eps)[1] + 1e-300:
                 ctx.disagree("mpc", case, f"call {call + 1}: MPC on a linear system vs model: u {np.abs(ui - um).max():.3e} "
                                           f"(ratio {eu.max():.2f}), x ratio {ex.max():.2f}, cost {ci!r} vs {cm!r}")
             continue
@@ -774,26 +974,27 @@ def compare_mpc_model(ctx: Ctx, reps, metas):
             continue
         # discrete outputs: only decisive when the recorded costs are not within rounding of a threshold
         costs = aux
-        fragile = any(abs(costs[i] - costs[j]) <= 1e-9 * (1 + sens[0] + sens[1]) * (abs(costs[i]) + 1) for i in range(len(costs)) for j in range(i))
+        amp = 1 + float(sens[0].max()) + float(sens[1].max())
+        fragile = any(abs(costs[i] - costs[j]) <= 1e-9 * amp * (abs(costs[i]) + 1) for i in range(len(costs)) for j in range(i))
         fragile |= any(abs(c - case["tol"]) <= 1e-9 * (1 + abs(c)) for c in costs)
         for i in range(1, len(costs)):
             if costs[i] != 0:
-                fragile |= abs((costs[i - 1] - costs[i]) / costs[i] - case["decreasing"]) <= 1e-7 * (1 + sens[0] + sens[1])
+                fragile |= abs((costs[i - 1] - costs[i]) / costs[i] - case["decreasing"]) <= 1e-7 * amp
         if (nm != niter or pcm != pc):
             if fragile:
                 ctx.count("mpc.nls.fragile-decision")
                 continue
             ctx.disagree("mpc", case, f"call {call + 1}: implementation ran {niter} iterations (patience_count {pc}), model {nm} ({pcm}); costs {costs}")
             continue
-        tu = 1e4 * eps * (sens[0] + np.abs(um).max() + 1)
-        tx = 1e4 * eps * (sens[1] + np.abs(xm).max() + 1)
-        stat("mpc.nls.u", np.abs(ui - um).max() / tu); stat("mpc.nls.x", np.abs(xi - xm).max() / tx)
-        if np.abs(ui - um).max() > tu or np.abs(xi - xm).max() > tx:
+        tu, tx = nls_tol(sens, um, xm, eps)
+        eu, ex = (np.abs(ui - um) / (tu + 1e-300)).max(), (np.abs(xi - xm) / (tx + 1e-300)).max()
+        stat("mpc.nls.u", eu); stat("mpc.nls.x", ex)
+        if eu > 1 or ex > 1:
             if fragile:
                 ctx.count("mpc.nls.fragile-decision")
                 continue
             ctx.disagree("mpc", case, f"call {call + 1}: MPC on the nonlinear system vs model: u differs by {np.abs(ui - um).max():.3e} "
-                                      f"(allowed {tu:.3e}), x by {np.abs(xi - xm).max():.3e} (allowed {tx:.3e}); {niter} iterations")
+                                      f"(ratio {eu:.2f}), x by {np.abs(xi - xm).max():.3e} (ratio {ex:.2f}); {niter} iterations")
 
 
 # ----------------------------------------------------------------------------- stepper stream
@@ -828,6 +1029,11 @@ def run_stepper(ctx: Ctx, n):
             for l in losses:
                 st.step(torch.tensor([l], dtype=torch.float64))
                 flags.append(1 if st.continual() else 0)
+        wflags, wpc, frag = U.stepper_flags(losses, steps, pat, dec, tol, pc0)
+        if not frag and (flags != wflags or int(st.patience_count) != wpc):
+            ctx.fail({"kind": "stepper", "steps": steps, "patience": pat, "pc0": pc0, "decreasing": dec, "tol": tol, "losses": losses},
+                     f"stepper: ReduceToBason(steps={steps}, patience={pat}, decreasing={dec}, tol={tol}) on losses {losses}: continual() "
+                     f"after each step {flags} (patience_count {int(st.patience_count)}), documented rules give {wflags} ({wpc})")
         lines.append(f"c14.stepper {steps} {pat} {pc0} " + common.wire_list([dec, tol] + losses))
         metas.append(({"kind": "stepper", "steps": steps, "patience": pat, "pc0": pc0, "decreasing": dec, "tol": tol, "losses": losses},
                       flags + [int(st.patience_count)]))
@@ -874,17 +1080,21 @@ def run_cases(ctx: Ctx, cases):
 def run(ctx: Ctx):
     torch.set_num_threads(1)
     rng = ctx.rng
-    cases = []
+    # deterministic corner corpus first: detection of the classes it covers does not depend on the seed
+    cases = corpus() + mpc_corpus()
+    for c in cases:
+        c["corpus"] = True
+    ctx.count("corpus.cases", len(cases))
     # every small shape (batch 1..3 x T 1..3 x ns,nc 1..2): the D18 region and its neighbours
     for sh in small_shapes():
         if ctx.quick and rng.random() < 0.5:
             continue
         cases.append(gen_lqr_case(rng, small=sh))
-    for _ in range(ctx.pick(160, 2000)):
+    for _ in range(ctx.pick(130, 2000)):
         cases.append(gen_lqr_case(rng, big=True))
     for _ in range(ctx.pick(30, 300)):
         cases.append(gen_mpc_linear_case(rng, big=not ctx.quick))
-    for _ in range(ctx.pick(36, 400)):
+    for _ in range(ctx.pick(26, 400)):
         cases.append(gen_mpc_nls_case(rng, big=not ctx.quick))
     run_cases(ctx, cases)
     run_stepper(ctx, ctx.pick(100, 1000))
@@ -919,7 +1129,17 @@ def replay(ctx: Ctx, case) -> bool:
     c.pop("focus", None)
     n0 = len(ctx.failures)
     if c.get("kind") == "stepper":
-        return True
+        P = U.pp()
+        st = P.utils.ReduceToBason(steps=c["steps"], patience=c["patience"], decreasing=c["decreasing"], tol=c["tol"])
+        st.reset()
+        st.patience_count = c["pc0"]
+        flags = []
+        for l in c["losses"]:
+            st.step(torch.tensor([l], dtype=torch.float64))
+            flags.append(1 if st.continual() else 0)
+        w = U.stepper_flags(c["losses"], c["steps"], c["patience"], c["decreasing"], c["tol"], c["pc0"])
+        print("  implementation:", flags, int(st.patience_count), " documented rules:", w[0], w[1])
+        return flags == w[0] and int(st.patience_count) == w[1]
     run_cases(ctx, [c])
     for f in ctx.failures[n0:]:
         print("  fails:", f["what"])
